@@ -267,6 +267,7 @@ def processQ (r : Run) (line : String) (st : Stats) : Run × Stats :=
           | some (.mctor d sv) => { m1 with opt := optRes m1.opt tid "mctor" d sv res }
           | some (.dtor v) => { m1 with opt := optRes m1.opt tid "dtor" v 0 res }
           | some (.setver v val) => { m1 with opt := optRes m1.opt tid "setver" v val.toNat res }
+          | some (.xver v) => { m1 with opt := optRes m1.opt tid "xver" v 0 res }
           | _ => m1
         | _ => m1
       else if tok.startsWith "R" then monResult r' tid tok
